@@ -169,8 +169,16 @@ class Interp(ExprMixin, StmtMixin):
             return self.call_closure(callee, args)
         if isinstance(callee, BoundM):
             return self.call_method(callee, args, kwargs, node)
+        if isinstance(callee, ZV):
+            h = R.METHODS.get((base_tag(callee.tag), "__call__"))
+            if h:
+                if (callee.tag or "").startswith("Opt["):
+                    self.partial(callee.term != L.NONE, "TypeError", node, "call-none")
+                return h(self, callee, args, kwargs, node)
         if isinstance(callee, GlobalRef):
             path = callee.path
+            if path in R.INLINE_CTORS and not subscript:
+                return self.inline_ctor(path, args, kwargs, node)
             if subscript:
                 h = R.EXTERNALS.get(path + ".__getitem__")
                 if h is None:
@@ -196,6 +204,36 @@ class Interp(ExprMixin, StmtMixin):
                 pass
             raise Unsupported("call to %s has no contract / theory (line %s)" % (path, getattr(node, "lineno", "?")))
         raise Unsupported("call of %r (line %s)" % (callee, getattr(node, "lineno", "?")))
+
+    def inline_ctor(self, path, args, kwargs, node):
+        """Record classes of the repo (plain field-assigning __init__): allocate a fresh object and run __init__'s
+        body in place (stated exception to modularity: constructors have no contract of their own)."""
+        st = self.st
+        mi, fnode = source.find_function(path + ".__init__")
+        if fnode is None:
+            raise Unsupported("no __init__ for %s" % path)
+        obj = ZV(L.fresh("new_" + path.split(":")[1]), R.INLINE_CTORS[path])
+        st.assume(obj.term != L.NONE)
+        st.assume(z3.Not(L.fn("preexisting", L.V, L.B)(obj.term)))
+        for o in st.alloc:
+            st.assume(obj.term != o)
+        st.alloc.append(obj.term)
+        bound = self.bind_args(fnode, args, kwargs, skip_self=True)
+        saved_mi, saved_env = self.mi, st.env
+        env = {fnode.args.args[0].arg: obj}
+        for n, v in bound.items():
+            if isinstance(v, tuple) and v[0] == "default":
+                self.mi, st.env = mi, {}
+                v = self.eval(v[1])
+            env[n] = v
+        self.mi, st.env = mi, env
+        try:
+            self.exec_block(fnode.body)
+        except ReturnEx:
+            pass
+        finally:
+            self.mi, st.env = saved_mi, saved_env
+        return obj
 
     def call_closure(self, clo, args):
         st = self.st
@@ -638,7 +676,10 @@ class Interp(ExprMixin, StmtMixin):
             self.yielded = ZV(L.seq_concat(self.yielded.term, v.term), "seq")
             return
         if self.is_ctxmgr:
-            # the with-body runs here: it may finish normally or raise anything
+            # the with-body runs here: arbitrary program code (may log, so the effect trace is havocked),
+            # it may finish normally or raise anything
+            self.st.effects = L.fresh("eff_body")
+            self.st.env["ghost_body_effects"] = ZV(self.st.effects, "seq")
             if self.branch(L.fresh("body_raises", L.B), node.lineno):
                 self.body_raised = True
                 raise RaisedEx(ExcVal("BaseException", exact=False), node.lineno)
@@ -758,8 +799,9 @@ class Interp(ExprMixin, StmtMixin):
         if self.is_ctxmgr and self.body_raised and exc.cls == "BaseException":
             # the body's own exception propagating out of the context manager
             env = dict(self.entry_env)
+            env.update({"L_" + k: v for k, v in st.env.items()})
             for label, clause in c.ensures_exc.items():
-                self.oblige(label, as_bool(self.spec_eval(clause, env)), r.line, clause=clause)
+                self.oblige(label, as_bool(self.spec_eval(clause, env, clean=True)), r.line, clause=clause)
             return
         allowed = None
         for name, clause in c.raises.items():
@@ -775,5 +817,6 @@ class Interp(ExprMixin, StmtMixin):
             g = as_bool(self.spec_eval(clause, dict(self.entry_env)))
             self.oblige("raises:%s@%d" % (name, r.line), g, r.line, clause=clause)
         env = dict(self.entry_env)
+        env.update({"L_" + k: v for k, v in st.env.items()})
         for label, cl in c.ensures_exc.items():
-            self.oblige(label, as_bool(self.spec_eval(cl, env)), r.line, clause=cl)
+            self.oblige(label, as_bool(self.spec_eval(cl, env, clean=True)), r.line, clause=cl)
